@@ -52,11 +52,16 @@ def gen_hashable(rng, depth):
 
 
 def dedup(items):
-    seen, out = set(), []
+    """keep one of the items Python itself identifies (hash / ==, e.g. (2,) and (2.0,)): members of sets, keys of dicts"""
+    seen, out = {}, []
     for x in items:
-        k = IR.py_key(x)
+        try:
+            k = IR.U.to_python(x)
+            hash(k)
+        except Exception:  # noqa
+            continue
         if k not in seen:
-            seen.add(k)
+            seen[k] = True
             out.append(x)
     return out
 
@@ -112,6 +117,9 @@ def coq_icase(value, res):
 def finding_shape(value, res):
     """classification used to match known findings"""
     classes = shape(value)[1]
+    b = res.get('bearable')
+    if isinstance(b, str) and ("'Iota' object has no attribute" in b or 'BeartypeDecorHintRecursionException' in b):
+        return {'clause': 'inferred_hint_rejects', 'kind': 'oversize_hint'}
     if 'Counter' in classes and res.get('bearable') is False:
         return {'clause': 'inferred_hint_rejects', 'kind': 'counter_non_int'}
     return {'clause': 'inferred_hint_rejects', 'kind': 'other', 'root': value[1] if len(value) > 1 and value[0] in ('cont', 'map') else value[0]}
@@ -222,6 +230,8 @@ def run(ctx):
                     sh['kind'] = 'other'       # only Counters with non-integer counts are the known finding
                 if ctx.report(sh, {'value': v, 'observed': res}, 'is_bearable(obj, infer_hint(obj)) is not True') == 'violation':
                     failures += 1
+            if isinstance(res.get('bearable'), str) and finding_shape(v, res)['kind'] == 'oversize_hint':
+                continue        # nothing to compare: the check of the inferred hint could not be generated
             if 'unreadable' in res:
                 failures += 1
                 ctx.report({'clause': 'unreadable_hint'}, {'value': v, 'observed': res},
